@@ -1,7 +1,11 @@
 import PeliteModel.Driver.State
 import PeliteModel.Model.Pe
+import PeliteModel.Model.PeChecked
 import PeliteModel.Spec.Pe
-/-! Driver handlers for the operation families that work on the current image. -/
+/-! Driver handlers for the operation families that work on the current image.
+They run the CHECKED variants of the model (`Model/PeChecked.lean`: panicking arithmetic / slice
+primitives at the Rust sites); `Thm/C02Arith.lean` proves them equal to the unchecked model the
+other theorems speak about, and the correspondence run ties them to the real code. -/
 namespace Pelite.Driver
 open Pelite.Proto Pelite.Pe
 
@@ -14,12 +18,12 @@ def construct (img : Img) (k : String) : Option (Out View) :=
     | .ok v, some b => .ok (v.setBase b)
     | o, _ => o
   match kind with
-  | "f32" => some (fromBytes .pe32 .file img)
-  | "f64" => some (fromBytes .pe64 .file img)
-  | "v32" => some (setb (fromBytes .pe32 .view img))
-  | "v64" => some (setb (fromBytes .pe64 .view img))
-  | "wf" => some (wrapFromBytes .file img)
-  | "wv" => some (wrapFromBytes .view img)
+  | "f32" => some (fromBytesChk .pe32 .file img)
+  | "f64" => some (fromBytesChk .pe64 .file img)
+  | "v32" => some (setb (fromBytesChk .pe32 .view img))
+  | "v64" => some (setb (fromBytesChk .pe64 .view img))
+  | "wf" => some (wrapFromBytesChk .file img)
+  | "wv" => some (wrapFromBytesChk .view img)
   | _ => none
 
 def withView (img : Option Img) (k : String) (f : View → String) : String :=
@@ -47,7 +51,10 @@ def hdr (img : Option Img) (k : String) : String :=
   withView img k fun v =>
     let cr := v.codeRange
     let ir := v.imageRange
-    s!"ok dos={ref v.dosHeader} dosimg={ref v.dosImage} nt={ref v.ntHeaders} fh={ref v.fileHeader} opt={ref v.optionalHeader} dd={ref v.dataDirectory} sec={ref v.sectionHeaders} himg={ref v.headersImage} csum={v.checkSum} code={cr.1}..{cr.2} image={ir.1}..{ir.2} base={v.imageBase} ## stdcsum={stdPeChecksum v.b}"
+    match v.checkSumChk with
+    | .ok csum =>
+    s!"ok dos={ref v.dosHeader} dosimg={ref v.dosImage} nt={ref v.ntHeaders} fh={ref v.fileHeader} opt={ref v.optionalHeader} dd={ref v.dataDirectory} sec={ref v.sectionHeaders} himg={ref v.headersImage} csum={csum} code={cr.1}..{cr.2} image={ir.1}..{ir.2} base={v.imageBase} ## stdcsum={stdPeChecksum v.b}"
+    | o => natOut o
 
 def hdrw (img : Option Img) (k : String) : String :=
   withView img k fun v =>
@@ -59,21 +66,21 @@ def addr (img : Option Img) (fam : String) (a : List String) : String :=
     let x := num x
     withView img k fun v =>
       match fam with
-      | "r2f" => natOut (v.rvaToFileOffset x)
-      | "f2r" => natOut (v.fileOffsetToRva x)
-      | "r2v" => natOut (v.rvaToVa x)
-      | "v2r" => natOut (v.vaToRva x)
+      | "r2f" => natOut (v.rvaToFileOffsetChk x)
+      | "f2r" => natOut (v.fileOffsetToRvaChk x)
+      | "r2v" => natOut (v.rvaToVa x)            -- no panicking site (`checked_add`)
+      | "v2r" => natOut (v.vaToRvaChk x)
       | _ => "bad-op"
   | _ => "bad-op"
 
 def sliceOp (img : Option Img) (a : List String) : String :=
   match a with
-  | [k, rva, min, al] => withView img k fun v => refOut (v.slice (num rva) (num min) (num al))
+  | [k, rva, min, al] => withView img k fun v => refOut (v.sliceChk (num rva) (num min) (num al))
   | _ => "bad-op"
 
 def readOp (img : Option Img) (a : List String) : String :=
   match a with
-  | [k, va, min, al] => withView img k fun v => refOut (v.read (num va) (num min) (num al))
+  | [k, va, min, al] => withView img k fun v => refOut (v.readChk (num va) (num min) (num al))
   | _ => "bad-op"
 
 def secbytes (img : Option Img) (a : List String) : String :=
